@@ -149,7 +149,8 @@ Section KeySteps.
     match value_after_eq cfg rest with
     | VOk v rest1 => KOk (set k v d) rest1
     | VEof => KEof (set k (VStr EmptyString) d)
-    | VErr => KErr
+    | VErr => KErr d
+    | VErrNil => KErr (set k VNull d)
     end.
   Proof.
     intros f d lvl s k rest H. unfold cfg. destruct st; simpl key; rewrite H;
@@ -166,18 +167,19 @@ Section KeySteps.
            | Some (VMap m) => Some (m, true)
            | Some _ => None
            end) with
-    | None => KErr
+    | None => KErr d
     | Some (inner, existed) =>
         match key f cfg inner (S lvl) rest with
         | KOk inner' rest1 =>
             match inner' with
-            | [] => KErr
+            | [] => KErr d
             | _ => KOk (if existed then mset k (VMap inner') d
                         else match inner' with [] => d | _ => set k (VMap inner') d end) rest1
             end
         | KEof inner' => KEof (if existed then mset k (VMap inner') d
                                else match inner' with [] => d | _ => set k (VMap inner') d end)
-        | KErr => KErr
+        | KErr inner' => KErr (if existed then mset k (VMap inner') d
+                               else match inner' with [] => d | _ => set k (VMap inner') d end)
         | KFuel => KFuel
         end
     end.
@@ -359,3 +361,89 @@ Example ex_set_frame :
   /\ parse_into (show_set ["n"; "k,1"] "a,b") ex_dest
      = POk [("a", VMap [("x.y", VStr "old"); ("keep", VNum 1%Z)]); ("b", VBool true); ("n", VMap [("k,1", VStr "a,b")])].
 Proof. repeat split; reflexivity. Qed.
+
+(* ---------- the frame of ANY parse, successful or not ---------- *)
+(* the top-level key a name=value pair starts with, as runesUntil reads it *)
+Definition first_key (c : pcfg) (s : string) : string :=
+  match pmode_of c with
+  | MLiteral => fst (fst (runes_until false stop_key_lit s))
+  | _ => fst (fst (runes_until true stop_key s))
+  end.
+
+Definition kres_table (r : kres) (d0 : vmap) : vmap :=
+  match r with KOk d _ | KEof d | KErr d => d | KFuel => d0 end.
+
+Definition pres_table (r : pres) (d0 : vmap) : vmap :=
+  match r with POk d | PErr d => d | PFuel => d0 end.
+
+Lemma mget_set_other : forall k k' v d, k' <> k -> mget k' (set k v d) = mget k' d.
+Proof. intros [|a t] k' v d H; [reflexivity|]. apply mget_mset_neq. congruence. Qed.
+
+(* one call of key changes the table at most at the key it read *)
+Lemma key_frame : forall f c d lvl s k',
+  k' <> first_key c s -> mget k' (kres_table (key f c d lvl s) d) = mget k' d.
+Proof.
+  intros f c d lvl s k' Hk. destruct f as [|f]; [reflexivity|].
+  unfold first_key in Hk. simpl key.
+  assert (Hneq : forall k, k' <> k -> k <> k') by (intros; congruence).
+  destruct (pmode_of c) eqn:Mode;
+    (match goal with |- context [runes_until ?e ?st s] => destruct (runes_until e st s) as [[k last] rest] eqn:R end;
+     simpl negb in R; rewrite R in Hk; simpl in Hk;
+     repeat (match goal with
+             | |- context [match ?x with _ => _ end] => destruct x eqn:?
+             end; simpl kres_table);
+     try reflexivity;
+     rewrite ?mget_set_other by assumption; rewrite ?mget_mset_neq by (apply Hneq; assumption); try reflexivity).
+Qed.
+
+(* the keys the successive pairs start with, as far as the parser gets *)
+Fixpoint heads (f : nat) (c : pcfg) (d : vmap) (s : string) : list string :=
+  match f with
+  | O => []
+  | S f' =>
+      first_key c s ::
+      match key (S (String.length s)) c d 0 s with
+      | KOk d' rest => heads f' c d' rest
+      | _ => []
+      end
+  end.
+
+Lemma heads_S : forall f c d s,
+  heads (S f) c d s =
+  first_key c s :: match key (S (String.length s)) c d 0 s with KOk d' rest => heads f c d' rest | _ => [] end.
+Proof. reflexivity. Qed.
+
+Lemma parse_loop_S : forall f c d s,
+  parse_loop (S f) c d s =
+  match key (S (String.length s)) c d 0 s with
+  | KOk d' rest => parse_loop f c d' rest
+  | KEof d' => POk d'
+  | KErr d' => PErr d'
+  | KFuel => PFuel
+  end.
+Proof. reflexivity. Qed.
+
+Theorem parse_frame : forall (c : pcfg) (s : string) (dest : vmap) (k' : string),
+  ~ In k' (heads (S (String.length s)) c dest s) ->
+  mget k' (pres_table (parse_with c s dest) dest) = mget k' dest.
+Proof.
+  intros c s dest. unfold parse_with. generalize (S (String.length s)) as f. revert s dest.
+  intros s dest f. revert s dest.
+  induction f as [|f IH]; intros s dest k' Hn; [reflexivity|].
+  rewrite heads_S in Hn. rewrite parse_loop_S.
+  assert (H1 : k' <> first_key c s) by (intros E; apply Hn; left; congruence).
+  pose proof (key_frame (S (String.length s)) c dest 0 s k' H1) as KF.
+  destruct (key (S (String.length s)) c dest 0 s) as [d' rest|d'|d'|] eqn:K; simpl in KF; simpl pres_table;
+    try exact KF; try reflexivity.
+  assert (H2 : ~ In k' (heads f c d' rest)) by (intros E; apply Hn; right; exact E).
+  specialize (IH rest d' k' H2).
+  destruct (parse_loop f c d' rest); simpl in *; congruence.
+Qed.
+
+(* non-vacuity of the frame on a failing expression: the first pair is stored, the second fails
+   (c is not a list), the third is never reached *)
+Example ex_error_frame :
+  parse_into "a.b=1,c[x]=2,d=3" [("c", VStr "old"); ("z", VBool true)]
+  = PErr [("c", VStr "old"); ("z", VBool true); ("a", VMap [("b", VNum 1%Z)])]
+  /\ heads 17 (mkCfg MTyped [] []) [("c", VStr "old"); ("z", VBool true)] "a.b=1,c[x]=2,d=3" = ["a"; "c"].
+Proof. split; reflexivity. Qed.
